@@ -111,6 +111,11 @@ def run_case(ctx, col, case):
         except CaseTimeout:
             col.inconclusive_case(f"case {case}: watchdog in {name}")
             return False
+        except Exception as e:
+            # every request of this workload is valid: a move that dies in a hook (or anywhere else) was
+            # neither handed to the hooks once nor emitted with the filament it should carry
+            log.append([name, _r(args), _r(kw), "raised"])
+            return fail("valid-move-raised-an-unexpected-exception", error=repr(e), mech="c20:move-raised")
         log.append([name, _r(args), _r(kw), outcome])
         if s.lex_errors:
             return fail("unparseable-output", errors=str(s.lex_errors[:2]))
